@@ -58,7 +58,7 @@ func (c *Config) space(name string) *Space {
 
 // Aggregate is the merged result of a run.
 type Aggregate struct {
-	Execs, Skipped, Points, Trivial int64
+	Execs, Skipped, Points, Trivial, Pruned int64
 	MaxDepth, MaxDev               int
 	Keys                           map[uint64]struct{}
 	Outcomes                       map[string]int64
@@ -91,6 +91,7 @@ func (a *Aggregate) merge(space string, r *shardResult) {
 	a.Skipped += r.Skipped
 	a.Points += r.Points
 	a.Trivial += r.Trivial
+	a.Pruned += r.Pruned
 	if r.MaxDepth > a.MaxDepth {
 		a.MaxDepth = r.MaxDepth
 	}
@@ -603,6 +604,9 @@ func Main(cfg *Config) {
 		"skipped_invalid":     agg.Skipped,
 		"trivial":             agg.Trivial,
 		"workers":             nw,
+	}
+	if agg.Pruned > 0 {
+		cov["state_cache_prunings"] = agg.Pruned
 	}
 	if len(agg.Incomplete) > 0 {
 		cov["incomplete_spaces"] = agg.Incomplete
